@@ -554,11 +554,13 @@ func (w *worker[T, JobType]) start() error {
 	}
 
 	defer w.notifyToPullNextJobs()
+	// the listener may stop the worker at once (context already cancelled),
+	// so it is started only after the status is set to running (deferred calls run in reverse order)
+	defer w.goListenToContext()
 	defer w.status.Store(running)
 
 	w.goEventLoop()
 	w.goRemoveIdleWorkers()
-	w.goListenToContext()
 
 	// init the first worker by default
 	w.pool.PushNode(w.initPoolNode())
